@@ -3,7 +3,7 @@ package c29
 // TestNonReader: the structural part of C29. A client that stops reading its
 // socket must not stop the server from answering other clients.
 //
-//	A  the client sends requests with large responses and never reads: the
+//	A  the client (small receive buffer) sends requests with large responses and never reads: the
 //	   single dispatcher goroutine blocks in the response write
 //	   (Server.handleService -> SecureChannel.SendResponseWithContext -> TCP write
 //	   without deadline).
@@ -105,7 +105,9 @@ func variantA() (bool, string, error) {
 	}
 	defer e.close()
 	e.srv.AddVariable("big", strings.Repeat("x", 60000))
-	a, err := dialAtt(e.addr, e.srv.URL)
+	// a fixed small receive buffer: otherwise the kernel grows the client's
+	// receive buffer up to tcp_rmem[2] (32 MB here) before the server's write blocks
+	a, err := dialSmallWindow(e.addr, e.srv.URL, 4096)
 	if err != nil {
 		return false, "", err
 	}
